@@ -1,0 +1,27 @@
+//go:build verif
+
+// Package verifhook provides scheduling yield points for the verification harness.
+// With the build tag `verif` a handler may be installed; a nil handler is a no-op.
+package verifhook
+
+import "sync/atomic"
+
+type Handler func(site string, obj any)
+
+var handler atomic.Pointer[Handler]
+
+// Install sets (or, with nil, removes) the yield handler.
+func Install(h Handler) {
+	if h == nil {
+		handler.Store(nil)
+		return
+	}
+	handler.Store(&h)
+}
+
+// Yield marks a scheduling point.
+func Yield(site string, obj any) {
+	if h := handler.Load(); h != nil {
+		(*h)(site, obj)
+	}
+}
